@@ -11,7 +11,9 @@ for d in $DIRS; do
   git -C /repo diff --quiet || { echo "/repo is dirty, abort"; exit 2; }
   if ! git -C /repo apply --check $PWD/$d/patch.diff 2>/dev/null; then echo "$d	$id	NA	patch does not apply" | tee -a $OUT; continue; fi
   git -C /repo apply $PWD/$d/patch.diff
+  cp -f evidence/$id.json /verif/build/evidence_$id.clean.json 2>/dev/null   # evidence is from clean-tree runs only
   timeout 1800 bin/check $id quick > /verif/build/matrix_$id.log 2>&1; rc=$?
+  cp -f /verif/build/evidence_$id.clean.json evidence/$id.json 2>/dev/null
   git -C /repo checkout -- .
   echo "$d	$id	$rc	$(grep VIOLATION /verif/build/matrix_$id.log | head -1)" | tee -a $OUT
 done
